@@ -122,6 +122,10 @@ def builtin_families():
     return fams
 
 
+NAME_PROBES_ONLY = {"FooBar", "HTTPServer", "MyCSENode", "A", "ABCd", "XMLHttpRequest2", "_Tagged",
+                    "Lambda_", "With_Under", "_x", "Norm2Squared", "Grad3D", "lower", "__Dunder"}
+
+
 def user_families():
     import vf.usercls_gen as u
     vals = {"name": S("x"), "children": T(X, C(1)), "child": X, "prefix": NONE,
@@ -130,6 +134,9 @@ def user_families():
            "scope": SCOPE_GLOBAL, "u": C(13), "w": C(14)}
     fams = {}
     for name, info in u.CLASSES.items():
+        if name in NAME_PROBES_ONLY:
+            continue        # classes that only probe the handler-name derivation (C04): they are
+                            # one-field decorated classes like Foo
         tag = class_tag(info["cls"])
         base = (tag, *[vals[f] for f in info["fields"]])
         variants = []
@@ -204,6 +211,81 @@ def pair_failure(a, b, sa, sb):
         if d.get(b) != 1 or b not in {a}:
             return "dict-lookup", "an equal object does not find the other as dict / set key"
     return None
+
+
+# {{{ two different classes with one name (a class factory called twice, two modules)
+
+SAME_NAME_KINDS = ("legacy", "decorated", "legacy-sub-variable", "undecorated-sub-sum")
+
+
+def _class_factory(kind):
+    import pymbolic.primitives as p
+    if kind == "legacy":
+        class Twin(p.Expression):
+            init_arg_names = ("u",)
+            mapper_method = "map_twin"
+
+            def __init__(self, u):
+                object.__setattr__(self, "u", u)
+
+            def __getinitargs__(self):
+                return (self.u,)
+    elif kind == "decorated":
+        @p.expr_dataclass()
+        class Twin(p.Expression):
+            u: object
+    elif kind == "legacy-sub-variable":
+        class Twin(p.Variable):
+            init_arg_names = ("name", "u")
+            mapper_method = "map_twin"
+
+            def __init__(self, name, u="t"):
+                p.Variable.__init__(self, name)
+                object.__setattr__(self, "u", u)
+
+            def __getinitargs__(self):
+                return (self.name, self.u)
+    else:
+        class Twin(p.Sum):
+            pass
+    return Twin
+
+
+def samename_failure(kind):
+    """Two classes made by calling one factory twice: same __name__, same fields, different
+    classes.  Instances are never equal across them, alone or inside built-in nodes."""
+    import warnings
+
+    import pymbolic.primitives as p
+    with warnings.catch_warnings():
+        warnings.simplefilter("ignore")
+        ca, cb = _class_factory(kind), _class_factory(kind)
+        arg = (p.Variable("x"), 1) if kind == "undecorated-sub-sum" else "x"
+        mk = (lambda c: c(arg))
+        for _round in range(3):         # earlier comparisons must not change later ones
+            a, a2, b = mk(ca), mk(ca), mk(cb)
+            for x, y, want in ((a, a2, True), (a, b, False), (b, a, False),
+                               (p.Sum((a, 1)), p.Sum((a2, 1)), True),
+                               (p.Sum((a, 1)), p.Sum((b, 1)), False),
+                               (p.Call(p.Variable("f"), (b,)), p.Call(p.Variable("f"), (a,)),
+                                False)):
+                try:
+                    got, ne = (x == y), (x != y)
+                    if got != want or ne == got:
+                        return ("eq-wrong", f"{kind}: {x!r} == {y!r} gives {got} (!= gives {ne}), "
+                                f"the classes are {'the same' if want else 'different'}")
+                    if want and (hash(x) != hash(y) or {x: 1}.get(y) != 1):
+                        return ("hash-differs", f"{kind}: equal instances hash / look up apart")
+                    if not want and ({x: 1}.get(y) is not None or len({x, y}) != 2):
+                        return ("dict-lookup", f"{kind}: instances of two different classes "
+                                "stand in for each other as dict / set keys")
+                except RecursionError:
+                    raise
+                except Exception as e:  # noqa: BLE001
+                    return (f"eq-raises:{type(e).__name__}", f"{kind}: {e!r}")
+    return None
+
+# }}}
 
 
 # {{{ size: wide n-ary nodes, deep chains
@@ -613,7 +695,7 @@ class C01(Check):
             "variant per field differing in exactly that field, typed-constant variants (1 / 1.0 / "
             "True), normalisation variants (operator by name, dict vs immutabledict keyword "
             "arguments in either order, scope None), same-field instances of neighbouring classes; "
-            "for each of the 93 generated user classes (decorated / undecorated / legacy / mixed "
+            "for each of 79 generated user classes (decorated / undecorated / legacy / mixed "
             "hierarchies, init=False / hash=False) an instance, one variant per field and the "
             "same-field instances of the base class and of sibling classes; for built-in and user "
             "classes variants whose differing constants collide under hash() (-1/-2, 0/2**61-1); ALL ordered pairs of the pool against the "
@@ -671,6 +753,10 @@ class C01(Check):
             for i in range(len(NAN_OBJECTS)):
                 yield ("self", i)
 
+        def samename():
+            for kind in SAME_NAME_KINDS:
+                yield ("samename", kind)
+
         def wide():
             for tag in WIDE_TAGS:
                 for n in (WIDE_Q if tier == "quick" else WIDE_T):
@@ -682,7 +768,8 @@ class C01(Check):
                 for d in (DEEP_Q if tier == "quick" else DEEP_T):
                     yield ("deep", tag, d)
         return [("class-definitions", classdefs), ("pairs", pool_items),
-                ("immutability", immut), ("self-comparison", selfcmp), ("wide-nodes", wide),
+                ("immutability", immut), ("self-comparison", selfcmp),
+                ("same-named-classes", samename), ("wide-nodes", wide),
                 ("deep-chains", deep), ("lifetimes", life),
                 ("histories", hist)]
 
@@ -730,6 +817,13 @@ class C01(Check):
             f = pair_failure(a, b, to_spec(a), to_spec(b))
             if f:
                 r.fail(f[0], f"{f[0]}|{show(to_spec(a))}|{show(to_spec(b))}", f[1])
+            return r
+        if kind == "samename":
+            r.evals += 1
+            r.keys.append(item)
+            f = samename_failure(item[1])
+            if f:
+                r.fail(f[0], f"{f[0]}|same-named {item[1]} classes", f[1])
             return r
         if kind == "wide":
             r.evals += 1
